@@ -120,6 +120,23 @@ def c06_monitor(case, frames):
                         fixed.pop(sx, None)
         elif k == "CT_FRAME":
             pending_lazy = False if pops or True else pending_lazy
+    # every UpdateBarPriority / SetPriority call that returned reaches the heap manager before the next ordered iteration
+    evs = events(case)
+    down = min([seq for seq, k, a in evs if k in ("CT_DONE", "CT_RENDERERR", "CL_CANCEL")] or [1 << 60])
+    for i, (seq, k, a) in enumerate(evs):
+        if k != "CL_PRIO":
+            continue
+        b, p = a[0], a[1]
+        ret = next((s2 for s2, k2, a2 in evs[i:] if k2 == "RET_PRIO" and a2[0] == b), None)
+        if ret is None:
+            continue
+        nxt = next((s2 for s2, k2, a2 in evs if s2 > ret and k2 == "HM_REQ" and len(a2) >= 2 and a2[0] == "2" and a2[1] == "1"), None)
+        if nxt is None or nxt > down:
+            continue
+        got = any(k2 == "HM_REQ" and len(a2) >= 3 and a2[0] == b and a2[1] == "3" and a2[2] == p and seq < s2 < nxt for s2, k2, a2 in evs)
+        if not got:
+            return ("UpdateBarPriority(%s, %s) returned at event %d but no fix request for it reached the heap manager before the next "
+                    "ordered iteration (event %d)" % (b, p, ret, nxt), "priority-change-never-reached-heap")
     # rows of every frame are the flushed bars in reverse flush order
     for c in cycles(case):
         if c["out"] is None or c["frame"] is None:
@@ -392,8 +409,14 @@ def c03_monitor(case, frames):
             explicit = any(k == "CL_OP" and a[0] == "b%d" % b and a[1] == "Abort" for _, k, a in evs)
             cancelled = any(k == "CL_CANCEL" for _, k, a in evs)
             sig = "aborted-bar-not-final-in-last-frame"
+            cancel_seq = min([seq for seq, k, a in evs if k == "CL_CANCEL"] or [None]) if cancelled else None
             if cancelled and not explicit and flag == "R":
-                sig = "cancelled-bar-drawn-running-in-last-frame"
+                if cancel_seq is not None and last["begin"] > cancel_seq:
+                    # the known finding: a cycle rendered AFTER the cancellation still draws the bar running
+                    sig = "cancelled-bar-drawn-running-in-last-frame"
+                else:
+                    # no cycle at all was rendered after the cancellation: the last frame predates it
+                    sig = "no-frame-rendered-after-cancellation"
             return ("bar %d was aborted but the last frame shows %s" % (b, ":".join(i)), sig)
     # bars that were dropped (flushed with shutdown 1 and rm, no successor) must be absent
     gone = set()
